@@ -96,17 +96,17 @@ def check(ctx) -> Result:
         raise AnalysisError("compress_mode_swaps: swap inspection loop (for/else) not found")
     tst = [i for i in sw.body if isinstance(i, ast.If)]
     okb = bool(tst) and src(tst[0].test).replace(" ", "") in ("minblocked_modes",) and any(isinstance(b, ast.Break) for b in tst[0].body) and any(isinstance(b, ast.For) and "blocked_modes.add" in src(b) and src(b.iter) == "swaps" for b in tst[0].body)
-    res.add(okb, "R-blocked-swap-blocks-all", "compress_mode_swaps", cms.site(sw), cms.qualname, "a later swap that touches a blocked mode blocks all of its modes and is not merged", "a swap touching a blocked mode is merged anyway or does not block its other modes", construct=src(sw)[:200])
+    res.frozen(okb, "R-blocked-swap-blocks-all", "compress_mode_swaps", cms.site(sw), cms.qualname, "a later swap that touches a blocked mode blocks all of its modes and is not merged", "a swap touching a blocked mode is merged anyway or does not block its other modes", construct=src(sw)[:200])
     keys_only = isinstance(sw.iter, ast.Name)
     sd = [a for a in walk_no_nested(cms.node) if isinstance(a, ast.Assign) and src(a.targets[0]) == "swaps"]
-    res.add(bool(sd) and src(sd[0].value) == "spec2.swaps", "R-blocked-swap-blocks-all", "compress_mode_swaps:swaps", cms.site(), cms.qualname, "inspects the later swap's own dictionary", "inspected dictionary is not the later swap's", construct=src(sd[0]) if sd else "")
+    res.frozen(bool(sd) and src(sd[0].value) == "spec2.swaps", "R-blocked-swap-blocks-all", "compress_mode_swaps:swaps", cms.site(), cms.qualname, "inspects the later swap's own dictionary", "inspected dictionary is not the later swap's", construct=src(sd[0]) if sd else "")
     comb = [c for c in ast.walk(sw) if isinstance(c, ast.Call) and src(c.func) == "combine_mode_swap_dicts"]
     okc = len(comb) == 1 and [src(a) for a in comb[0].args] == ["spec.swaps", "swaps"] and all(c in [x for o in sw.orelse for x in ast.walk(o)] for c in comb)
-    res.add(okc, "R-compose-earlier-then-later", "compress_mode_swaps", cms.site(sw), cms.qualname, "combine(earlier swap, later swap) in the no-conflict branch only", "swap dictionaries are combined in the wrong order or outside the no-conflict branch", construct=src(comb[0]) if comb else "")
+    res.frozen(okc, "R-compose-earlier-then-later", "compress_mode_swaps", cms.site(sw), cms.qualname, "combine(earlier swap, later swap) in the no-conflict branch only", "swap dictionaries are combined in the wrong order or outside the no-conflict branch", construct=src(comb[0]) if comb else "")
     skips = [c for o in sw.orelse for c in ast.walk(o) if isinstance(c, ast.Call) and src(c.func) == "to_skip.append"]
-    res.add(len(skips) == 1 and src(skips[0].args[0]).replace(" ", "") in ("i+1+j", "i+j+1", "j+i+1", "1+i+j"), "R-merged-swap-skipped", "compress_mode_swaps", cms.site(sw), cms.qualname, "the merged later swap (index i+1+j) is skipped", "the merged swap is not skipped (applied twice) or the wrong component is skipped", construct=src(skips[0]) if skips else "")
+    res.frozen(len(skips) == 1 and src(skips[0].args[0]).replace(" ", "") in ("i+1+j", "i+j+1", "j+i+1", "1+i+j"), "R-merged-swap-skipped", "compress_mode_swaps", cms.site(sw), cms.qualname, "the merged later swap (index i+1+j) is skipped", "the merged swap is not skipped (applied twice) or the wrong component is skipped", construct=src(skips[0]) if skips else "")
     encl = [l for l in walk_no_nested(cms.node) if isinstance(l, ast.For) and "enumerate(circuit_spec[i + 1:])" in src(l.iter).replace("[i + 1 :]", "[i + 1:]")]
-    res.add(bool(encl), "R-merged-swap-skipped", "compress_mode_swaps:scan", cms.site(), cms.qualname, "later components are scanned from position i+1", "scan of later components does not start right after the swap", construct="scan")
+    res.frozen(bool(encl), "R-merged-swap-skipped", "compress_mode_swaps:scan", cms.site(), cms.qualname, "later components are scanned from position i+1", "scan of later components does not start right after the swap", construct="scan")
     # M5: at most one append per input component, none inside the inner scan
     outer = [l for l in cms.node.body if isinstance(l, ast.For)]
     apps = _appends(cms.node, "new_spec")
@@ -137,10 +137,10 @@ def check(ctx) -> Result:
                     v = a.value
                     if isinstance(v, ast.Subscript) and src(v.value) == "swaps2" and {f"swaps1[{k}]", src(v.slice)} == sides:
                         good = True
-    res.add(good, "R-compose-earlier-then-later", "combine_mode_swap_dicts", cmb.site(), cmb.qualname, "combined[k] = swaps2[swaps1[k]]", "composition is not swaps2 after swaps1", construct="compose")
+    res.frozen(good, "R-compose-earlier-then-later", "combine_mode_swap_dicts", cmb.site(), cmb.qualname, "combined[k] = swaps2[swaps1[k]]", "composition is not swaps2 after swaps1", construct="compose")
     rest = any(isinstance(n, ast.If) and "not in added_swaps" in src(n.test) and any("new_swaps[s2] = swaps2[s2]" == src(b) for b in n.body) for n in walk_no_nested(cmb.node))
     keep = any(isinstance(n, ast.For) and n.orelse and any(src(b) == "new_swaps[s1] = swaps1[s1]" for b in n.orelse) for n in walk_no_nested(cmb.node))
-    res.add(rest and keep, "R-compose-earlier-then-later", "combine_mode_swap_dicts:unmatched", cmb.site(), cmb.qualname, "entries of either dictionary without a partner are carried over", "entries without a partner in the other dictionary are dropped", construct="carry-over")
+    res.frozen(rest and keep, "R-compose-earlier-then-later", "combine_mode_swap_dicts:unmatched", cmb.site(), cmb.qualname, "entries of either dictionary without a partner are carried over", "entries without a partner in the other dictionary are dropped", construct="carry-over")
     # ---- convert_non_adj_beamsplitters
     cv = ctx.func(UTILS, "convert_non_adj_beamsplitters")
     apps = sorted(_appends(cv.node, "new_spec"), key=lambda c: c.lineno)
@@ -169,7 +169,7 @@ def check(ctx) -> Result:
     okw = bool(wl) and "isinstance(s, Group)" in src(wl[0].test) and "any(" in src(wl[0].test)
     aug = [a for a in ast.walk(up.node) if isinstance(a, ast.AugAssign)]
     oka = len(aug) == 2 and {src(a.value) for a in aug} == {"[spec]", "spec.circuit_spec"}
-    res.add(okw and oka, "R-unpack-flattens-in-order", "unpack_circuit_spec", up.site(), up.qualname, "repeats until no Group remains; members replace their group in place, in order", "group flattening changed (order / completeness)", construct=src(up.node)[-200:])
+    res.frozen(okw and oka, "R-unpack-flattens-in-order", "unpack_circuit_spec", up.site(), up.qualname, "repeats until no Group remains; members replace their group in place, in order", "group flattening changed (order / completeness)", construct=src(up.node)[-200:])
     ug = C.methods["unpack_groups"]
-    res.add("unpack_circuit_spec(self.__circuit_spec)" in src(ug.node), "R-unpack-flattens-in-order", "Circuit.unpack_groups", ug.site(), ug.qualname, "assigns the flattened list", "unpack_groups no longer assigns the flattened component list", construct="unpack_groups")
+    res.frozen("unpack_circuit_spec(self.__circuit_spec)" in src(ug.node), "R-unpack-flattens-in-order", "Circuit.unpack_groups", ug.site(), ug.qualname, "assigns the flattened list", "unpack_groups no longer assigns the flattened component list", construct="unpack_groups")
     return res
